@@ -321,6 +321,7 @@ func (c *Cache) startWorker(ch chan *EventSubscription) {
 
 func (c *Cache) mqUnsubscribe(v interface{}) {
 	eventSub := v.(*EventSubscription)
+	verifGate("evict", eventSub.ResourceName)
 	c.mu.Lock()
 	defer c.mu.Unlock()
 
